@@ -13,7 +13,8 @@
  *   cores <n>               CPUs reported by sched_getaffinity
  *   fault <op> <n> <kind> [arg]
  *        op   = open | write | read | meta (n counts calls of that op on workload files / stdout, from 0;
- *               meta = rename/unlink/ftruncate/fsync/fdatasync on workload files: errno kinds or crash)
+ *               meta = rename/unlink/ftruncate/fsync/fdatasync on workload files: errno kinds or crash;
+ *               thread = the n-th pthread_create of the process fails with EAGAIN)
  *        kind = an errno name (EACCES ENOENT ENOSPC EMFILE EINTR EIO EDQUOT EROFS EISDIR ENOMEM EPIPE);
  *               with arg 1 a write error is sticky: every later write on that fd fails the same way
  *               (a disk that is full stays full)
@@ -45,7 +46,7 @@
 #define MAXFD 4096
 #define MAXFAULT 64
 
-enum { OP_OPEN, OP_WRITE, OP_READ, OP_META, OP_N };
+enum { OP_OPEN, OP_WRITE, OP_READ, OP_META, OP_THREAD, OP_N };
 enum { K_ERRNO, K_SHORT, K_CRASH, K_TEAR };
 
 struct fault { int op; long n; int kind; long arg; int fired; int sticky; };
@@ -133,7 +134,7 @@ static void init(void) {
             g_cores = (int)n;
         } else if (sscanf(line, "fault %63s %ld %63s %ld", b, &n, c, &arg) >= 3 && g_nfaults < MAXFAULT) {
             struct fault f; memset(&f, 0, sizeof f);
-            f.op = !strcmp(b, "open") ? OP_OPEN : !strcmp(b, "write") ? OP_WRITE : !strcmp(b, "meta") ? OP_META : OP_READ;
+            f.op = !strcmp(b, "open") ? OP_OPEN : !strcmp(b, "write") ? OP_WRITE : !strcmp(b, "meta") ? OP_META : !strcmp(b, "thread") ? OP_THREAD : OP_READ;
             f.n = n;
             if (!strcmp(c, "short")) { f.kind = K_SHORT; f.arg = arg; }
             else if (!strcmp(c, "crash")) f.kind = K_CRASH;
@@ -449,7 +450,14 @@ int pthread_create(pthread_t *t, const pthread_attr_t *a, void *(*fn)(void *), v
     static int (*real)(pthread_t *, const pthread_attr_t *, void *(*)(void *), void *);
     init();
     if (!real) real = dlsym(RTLD_NEXT, "pthread_create");
-    g_threads++;
+    long n = g_threads++;
+    struct fault *f = fault_for(OP_THREAD, n);
+    if (f) {
+        /* the OS refuses a thread (EAGAIN: RLIMIT_NPROC, out of memory for the stack, ...) */
+        f->fired = 1;
+        raw_log("%ld pthread_create #%ld -> EAGAIN\n", g_seq++, g_threads);
+        return EAGAIN;
+    }
     raw_log("%ld pthread_create #%ld\n", g_seq++, g_threads);
     return real(t, a, fn, arg);
 }
